@@ -34,6 +34,21 @@ PID = "C08"
 MODULES = ["OpacusLean.Props.C08"]
 THEOREMS = [
     "Opacus.C08.bisection_invariant",
+    "Opacus.C08.bisection_invariant_le",
+    "Opacus.C08.doubling_guard",
+    "Opacus.C08.doubling_terminates",
+    "Opacus.C08.bisection_terminates",
+    "Opacus.C08.bisection_terminates_lipschitz",
+    "Opacus.C08.terminates",
+    "Opacus.C08.steps_trunc_bounds",
+    "Opacus.C08.steps_trunc_bounds_model",
+    "Opacus.C08.steps_consistent_iff",
+    "Opacus.C08.steps_consistent_repaired",
+    "Opacus.C08.calibration_sound_partial",
+    "Opacus.C08.calibration_sound_repaired",
+    "Opacus.C08.overshoot_witnesses",
+    "Opacus.C08.model_agrees_with_float",
+    "Opacus.Binary64.rne_rel_error",
 ]
 RULE = (
     "calibration case = (accountant in {rdp,gdp,prv} or synthetic eps family+params, target, delta, L, epochs|steps, tolerance, fuel) drawn from VERIF_SEED; "
